@@ -464,7 +464,7 @@ impl FatVolume {
                                 first_dir_block_num = self.cluster_to_block(c);
                                 Some(c)
                             }
-                            _ => None,
+                            Err(e) => return Err(e),
                         };
                     } else {
                         current_cluster = None;
@@ -528,7 +528,7 @@ impl FatVolume {
                             first_dir_block_num = self.cluster_to_block(c);
                             Some(c)
                         }
-                        _ => None,
+                        Err(e) => return Err(e),
                     };
                 }
                 // We ran out of clusters in the chain, and apparently we weren't
@@ -750,7 +750,9 @@ impl FatVolume {
                         first_dir_block_num = self.cluster_to_block(n);
                         Some(n)
                     }
-                    _ => None,
+                    // the chain ends here; anything else is a real error
+                    Err(Error::EndOfFile) => None,
+                    Err(e) => return Err(e),
                 };
             } else {
                 current_cluster = None;
@@ -798,7 +800,9 @@ impl FatVolume {
             }
             current_cluster = match self.next_cluster(block_cache, cluster) {
                 Ok(n) => Some(n),
-                _ => None,
+                // the chain ends here; anything else is a real error
+                Err(Error::EndOfFile) => None,
+                Err(e) => return Err(e),
             };
         }
         Ok(())
@@ -852,7 +856,9 @@ impl FatVolume {
                                 first_dir_block_num = self.cluster_to_block(n);
                                 Some(n)
                             }
-                            _ => None,
+                            // the chain ends here; anything else is a real error
+                            Err(Error::EndOfFile) => None,
+                            Err(e) => return Err(e),
                         };
                     } else {
                         current_cluster = None;
@@ -880,7 +886,9 @@ impl FatVolume {
                     }
                     current_cluster = match self.next_cluster(block_cache, cluster) {
                         Ok(n) => Some(n),
-                        _ => None,
+                        // the chain ends here; anything else is a real error
+                        Err(Error::EndOfFile) => None,
+                        Err(e) => return Err(e),
                     }
                 }
                 Err(Error::NotFound)
@@ -968,7 +976,9 @@ impl FatVolume {
                                 first_dir_block_num = self.cluster_to_block(n);
                                 Some(n)
                             }
-                            _ => None,
+                            // the chain ends here; anything else is a real error
+                            Err(Error::EndOfFile) => None,
+                            Err(e) => return Err(e),
                         };
                     } else {
                         current_cluster = None;
@@ -1005,7 +1015,9 @@ impl FatVolume {
                     // Find the next cluster
                     current_cluster = match self.next_cluster(block_cache, cluster) {
                         Ok(n) => Some(n),
-                        _ => None,
+                        // the chain ends here; anything else is a real error
+                        Err(Error::EndOfFile) => None,
+                        Err(e) => return Err(e),
                     }
                 }
                 // Ok, give up
@@ -1079,8 +1091,7 @@ impl FatVolume {
                     let block = block_cache
                         .read(this_fat_block_num)
                         .map_err(Error::DeviceError)?;
-                    while this_fat_ent_offset <= Block::LEN - 2
-                        && current_cluster.0 < end_cluster.0
+                    while this_fat_ent_offset <= Block::LEN - 2 && current_cluster.0 < end_cluster.0
                     {
                         let fat_entry = LittleEndian::read_u16(
                             &block[this_fat_ent_offset..=this_fat_ent_offset + 1],
@@ -1111,8 +1122,7 @@ impl FatVolume {
                     let block = block_cache
                         .read(this_fat_block_num)
                         .map_err(Error::DeviceError)?;
-                    while this_fat_ent_offset <= Block::LEN - 4
-                        && current_cluster.0 < end_cluster.0
+                    while this_fat_ent_offset <= Block::LEN - 4 && current_cluster.0 < end_cluster.0
                     {
                         let fat_entry = LittleEndian::read_u32(
                             &block[this_fat_ent_offset..=this_fat_ent_offset + 3],
@@ -1154,7 +1164,7 @@ impl FatVolume {
         let new_cluster = match self.find_next_free_cluster(block_cache, start_cluster, end_cluster)
         {
             Ok(cluster) => cluster,
-            Err(_) if start_cluster.0 > RESERVED_ENTRIES => {
+            Err(Error::NotEnoughSpace) if start_cluster.0 > RESERVED_ENTRIES => {
                 debug!(
                     "Retrying, finding next free between {:?}..={:?}",
                     ClusterId(RESERVED_ENTRIES),
@@ -1480,7 +1490,9 @@ where
             let info_location = bpb.fs_info_block().unwrap();
             // The partition start comes from the (untrusted) partition table
             if lba_start.0.checked_add(info_location.0).is_none() {
-                return Err(Error::FormatError("Info sector beyond the end of the device"));
+                return Err(Error::FormatError(
+                    "Info sector beyond the end of the device",
+                ));
             }
             let mut volume = FatVolume {
                 lba_start,
